@@ -158,6 +158,9 @@ type World struct {
 	// Invalid launches seen by the master (C05 observation point).
 	InvalidLaunches []string
 	RetryUnacked    time.Duration
+	// OfferDelay, if set, gives an extra delay for the offer of one agent in one round (its
+	// offer then arrives in a separate OFFERS event): agents are not offered in lock step.
+	OfferDelay func(a *Agent) time.Duration
 }
 
 func NewWorld(s *simrt.Sim) *World {
@@ -340,13 +343,35 @@ func (w *World) subscribe(inc int, call *scheduler.Call, lg *CallLog) (mesos.Res
 // SendOffers makes one offer per agent with all its currently free resources (unless one is
 // already outstanding for that agent).
 func (w *World) SendOffers(after time.Duration) {
+	groups := map[time.Duration][]*Agent{}
+	var delays []time.Duration
+	w.mu.Lock()
+	agents := append([]*Agent(nil), w.Agents...)
+	w.mu.Unlock()
+	for _, a := range agents {
+		d := time.Duration(0)
+		if w.OfferDelay != nil {
+			d = w.OfferDelay(a)
+		}
+		if _, ok := groups[d]; !ok {
+			delays = append(delays, d)
+		}
+		groups[d] = append(groups[d], a)
+	}
+	sort.Slice(delays, func(i, j int) bool { return delays[i] < delays[j] })
+	for _, d := range delays {
+		w.sendOffersFor(after+d, groups[d])
+	}
+}
+
+func (w *World) sendOffersFor(after time.Duration, agents []*Agent) {
 	w.S.Go("mesos-offers", func() {
 		if d := after + w.lat("offers"); d > 0 {
 			simrt.Sleep(d)
 		}
 		w.mu.Lock()
 		var list []mesos.Offer
-		for _, a := range w.Agents {
+		for _, a := range agents {
 			if a.Lost {
 				continue
 			}
@@ -377,13 +402,11 @@ func (w *World) SendOffers(after time.Duration) {
 			w.Offers[o.ID] = o
 			list = append(list, w.offerProto(o))
 		}
-		fw := w.FwID
 		w.mu.Unlock()
 		if len(list) == 0 {
 			return
 		}
 		w.emit(&scheduler.Event{Type: scheduler.Event_OFFERS, Offers: &scheduler.Event_Offers{Offers: list}})
-		_ = fw
 	})
 }
 
